@@ -424,7 +424,7 @@ VARIANTS = [
         ("lena/math/elements.py", "        it = _zip_longest(*(seq.compute() for seq in self._seqs))\n",
          "        it = _zip_longest(*(seq.compute() for seq in self._seqs))\n        ctx_copy = copy.deepcopy(self._cur_context)\n", 0),
         ("lena/math/elements.py", "yield _maybe_with_context(res, copy.deepcopy(self._cur_context))",
-         "yield _maybe_with_context(res, ctx_copy)", 0)]),
+         "yield _maybe_with_context(res, ctx_copy)", 1)]),
     M("count-no-copy", "lena/flow/elements.py", "yield (self.count, copy.deepcopy(self._cur_context))",
       "yield (self.count, self._cur_context)", ["C04-a"]),
     M("splitintobins-no-copy", "lena/structures/split_into_bins.py", "yield (hist, copy.deepcopy(cur_context))",
